@@ -7,6 +7,7 @@ mod dictsrc;
 mod gen;
 mod mon;
 mod objeq;
+mod proc;
 mod props;
 mod refenc;
 mod report;
